@@ -182,6 +182,9 @@ def sym_line(I, tag, spec, key_alphabet, inner_alphabet=None):
     last byte are not whitespace, `trail` whitespace bytes.  Returns (bytes tuple, key bytes)."""
     lead, klen, trail = spec
     bs = []
+    if isinstance(lead, (bytes, tuple)):
+        bs.extend(lead)          # literal (multi-byte) whitespace
+        lead = 0
     for i in range(lead):
         bs.append(I.fresh_byte('%s_w%d' % (tag, i), WS))
     key = []
